@@ -200,6 +200,8 @@ class Monitor:
                     return ("C10:request-not-transmitted:" + p[(j, k)],
                             "connection %d: nothing sent although %s of characteristic #%d (uuid %04x, requested by %s) is pending, subscribed and readable"
                             % (c, "notification" if k == "n" else "indication", j, d.cccd[j]["uuid"], p[(j, k)]))
+                if self.unknown[c]:
+                    return None                     # no exact tracking any more: `pending` stays a superset
                 if len(droppable) == 1:
                     if droppable[0][1] == "i":
                         self.awaiting[c] = True     # the code marks even an unsent indication as unconfirmed (C11 observation)
